@@ -34,6 +34,11 @@ contiguous shards, each with its own key, window and adversarial server.  TLC ch
 NoCrossTalk / PausesAreLocal exhaustively and exports every submission case (TCASE), submission sequence (TBEH) and
 GetAcceptedRoots schedule (RCASE).  Binding: harness/vt/c12t (go1.26 testing/synctest) replays all of them into a real
 client.NewTemporalLogClient behind a RoundTripper that routes by host to scripted per-shard servers with real keys.
+The DEPLOYMENT of the shards is a dimension of the configuration (variable dep, constant Deployments: per shard the
+frontend / base URI it is served from and the key it is configured with): every shard its own URI and key; all shards
+behind one base URI with different keys, with one key, with a first / middle shard that has no key; one key behind three
+URIs; two of three shards behind one URI; URI shared with one neighbour and key with the other.  OnlyVerifiedSCT is
+stated against the key CONFIGURED for the routed shard, RoutedToOneShard against the routed shard's frontend.
 """
 import json
 import os
@@ -46,6 +51,13 @@ ASSUME_TEMPORAL = [
     "model's instants 0..4 (thorough: 0..6) or absent; instants are materialized on whole seconds one second and one hour apart "
     "(sub-second bounds against second-resolution NotAfter are C18's subject); three key assignments (ECDSA/RSA/ECDSA, "
     "RSA/ECDSA/RSA, all ECDSA) plus a key of each type that belongs to no shard",
+    "temporal client, deployments (NAMED CLAUSE SharedFrontend): shards may share a base URI (materialized as the same string, "
+    "and with / without the trailing slash) and / or a key; the SCT handed back for a certificate routed to shard s must verify under "
+    "and name the key configured for s, whoever else is served from that URI; quick: exhaustive check over {own URI and key, one URI "
+    "x three keys, one URI x one key}, server-class cases additionally over {three URIs x one key, one URI with a first shard without "
+    "key}, routing cases and sequences over {own URI and key, one URI x three keys}; thorough: all eight deployments in the exhaustive "
+    "check and the server-class cases; GetAcceptedRoots is explored with every shard behind its own URI only; NAMED CLAUSE "
+    "UnkeyedShard: what a shard configured without a key hands back is not judged (routing, requests and pacing still are)",
     "temporal client, NAMED CLAUSE LaxFirstElement: a first chain element that parses only leniently may be refused before "
     "anybody is contacted or routed by its NotAfter; nothing else is accepted",
     "temporal client, pacing: one caller at a time, calls spaced further apart (1000 s of virtual time) than the 128 s cap, so a "
